@@ -121,13 +121,32 @@ def prune(d, keep):
         shutil.rmtree(os.path.join(d, e), ignore_errors=True)
 
 
-def run_session(exe, lines, timeout=120, env=None, mem_mb=4096):
+def _spawn(exe, inp, env, timeout, mem_mb):
+    e = dict(os.environ if env is None else env)
+    e.setdefault('GOMEMLIMIT', '%dMiB' % mem_mb)
+    e.setdefault('GOTRACEBACK', 'single')
+    e.setdefault('GORACE', 'halt_on_error=1')
+    try:
+        r = subprocess.run(['/bin/sh', '-c', 'ulimit -v %d; exec "$0"' % (mem_mb * 4 * 1024), exe],
+                           input=inp, env=e, stdout=subprocess.PIPE, stderr=subprocess.PIPE,
+                           text=True, timeout=timeout)
+        return r.stdout, r.stderr, 'exit%d' % r.returncode
+    except subprocess.TimeoutExpired as te:
+        out = te.stdout.decode() if isinstance(te.stdout, bytes) else (te.stdout or '')
+        return out, '', 'timeout'
+
+
+def run_session(exe, lines, timeout=120, env=None, mem_mb=4096, independent=False):
     """run one harness process over the case lines ('id sexp').  Returns {id: observation}.
     A case on which the process died is observed as '(crash <how>)' and the remaining
-    cases are run in a new process."""
+    cases are run in a new process.  The time limit is for the whole batch, so running into it
+    says the batch was slow, not that the case in progress hangs (a loaded machine does that):
+    before a case is blamed it is given a second chance -- an independent case is run alone in a
+    fresh process, a history is started over once with twice the limit."""
     obs = {}
     pending = list(lines)
     timeouts = 0
+    restarted = False
     while pending:
         if timeouts >= 2:
             # the process keeps hanging: two hung cases are evidence enough, do not spend the
@@ -135,23 +154,11 @@ def run_session(exe, lines, timeout=120, env=None, mem_mb=4096):
             for l in pending:
                 obs[l.split(' ', 1)[0]] = '(not-run)'     # judged as a harness note, never as evidence
             break
-        inp = '\n'.join(pending) + '\n'
-        e = dict(os.environ if env is None else env)
-        e.setdefault('GOMEMLIMIT', '%dMiB' % mem_mb)
-        e.setdefault('GOTRACEBACK', 'single')
-        e.setdefault('GORACE', 'halt_on_error=1')
-        try:
-            r = subprocess.run(['/bin/sh', '-c', 'ulimit -v %d; exec "$0"' % (mem_mb * 4 * 1024), exe],
-                               input=inp, env=e, stdout=subprocess.PIPE, stderr=subprocess.PIPE,
-                               text=True, timeout=timeout)
-            out, err, how = r.stdout, r.stderr, 'exit%d' % r.returncode
-        except subprocess.TimeoutExpired as te:
-            out = te.stdout.decode() if isinstance(te.stdout, bytes) else (te.stdout or '')
-            err, how = '', 'timeout'
-            timeouts += 1
+        out, err, how = _spawn(exe, '\n'.join(pending) + '\n', env, timeout, mem_mb)
         started = None
         done = set()
-        for ln in out.split('\n'):
+        whole = out.split('\n')[:-1]      # a killed process may leave half a line behind
+        for ln in whole:
             if ln.startswith('@ '):
                 started = ln[2:]
             elif ln.startswith('= '):
@@ -163,6 +170,26 @@ def run_session(exe, lines, timeout=120, env=None, mem_mb=4096):
             break
         # the process died on `started` (or before producing anything)
         victim = started if started is not None and started not in done else rest[0].split(' ', 1)[0]
+        if how == 'timeout':
+            if independent:
+                vline = [l for l in rest if l.split(' ', 1)[0] == victim][:1]
+                o2, e2, h2 = _spawn(exe, '\n'.join(vline) + '\n', env, max(min(timeout, 60), 20), mem_mb)
+                got = [ln for ln in o2.split('\n')[:-1] if ln.startswith('= ' + victim + ' ')]
+                if got:
+                    # it was the batch, not the case
+                    obs[victim] = got[0][len('= ' + victim + ' '):]
+                    pending = [l for l in rest if l.split(' ', 1)[0] != victim]
+                    continue
+                if h2 != 'timeout':
+                    err, how = e2, h2       # alone it dies otherwise: report that
+            elif not restarted:
+                restarted = True
+                obs = {}
+                pending = list(lines)
+                timeout = timeout * 2
+                continue
+            if how == 'timeout':
+                timeouts += 1
         first = [x for x in err.split('\n') if x.strip()][:1]
         if 'DATA RACE' in err:
             first = ['DATA RACE ' + ' | '.join(x.strip() for x in err.split('\n') if '.go:' in x)[:600]]
@@ -176,13 +203,14 @@ def run_cases(exe, cases, shards=None, timeout=120, env=None):
     """cases: list of (id, sexp).  Independent cases are sharded over processes."""
     if not cases:
         return {}
+    timeout = float(os.environ.get('VERIF_BATCH_TIMEOUT', timeout))   # for testing the slow-machine path
     shards = shards or min(NPROC, max(1, len(cases) // 50))
     chunks = [[] for _ in range(shards)]
     for i, (cid, sx) in enumerate(cases):
         chunks[i % shards].append('%s %s' % (cid, sx))
     obs = {}
     with ThreadPoolExecutor(max_workers=shards) as ex:
-        for o in ex.map(lambda c: run_session(exe, c, timeout=timeout, env=env), chunks):
+        for o in ex.map(lambda c: run_session(exe, c, timeout=timeout, env=env, independent=True), chunks):
             obs.update(o)
     return obs
 
